@@ -510,7 +510,7 @@ def plan(tier, seed):
     opa = []
     ops = ["Add", "Sub", "Mul", "Div"]
     for n, op in enumerate(ops):
-        tt = ["i64", "u8", "f64", "i16"][(n + seed) % 4]
+        tt = ["i64", "u8", "i32", "i16"][(n + seed) % 4]      # no f64: `-=` on f64 needed 100-350 s per kernel harness at seed 1 (quick is stopped at 900 s)
         if op == "Div":
             tt = ["u8", "f32", "i8", "u8"][(n + seed) % 4]        # 64-bit symbolic-by-symbolic division gets no verdict
         if op == "Mul":
